@@ -208,6 +208,24 @@ def overlap_trim(prog, res):
     res.need(R, 2)
 
 
+def core_decodes_in_streaming_mode(prog, res):
+    """T3: ZSTD_decompressContinue serves callers whose destination is a ring (ZSTD_decompressStream's output buffer, the
+    buffer-less API): room after the current block may still hold the oldest part of the window.  It must always ask
+    ZSTD_decompressBlock_internal for `is_streaming` placement of the literals, never `not_streaming` (which parks them in dst
+    after the block)."""
+    R = "T3.core-streaming-literals"
+    f = prog.fn("ZSTD_decompressContinue")
+    calls = [c for b, i, c in f.calls("ZSTD_decompressBlock_internal")]
+    res.check(len(calls) >= 1, R, "site", f.loc, "%d block decoding call(s)" % len(calls), "ZSTD_decompressContinue no longer calls ZSTD_decompressBlock_internal")
+    for c in calls:
+        a = strip_casts(f.resolve_x(c["a"][-1]))
+        ok = a is not None and a.get("k") == "ref" and a.get("n") == "is_streaming"
+        res.check(ok, R, "mode@%s" % c.get("l"), "%s:%s" % (f.file, c.get("l")), "literals placement mode is the constant is_streaming",
+                  "ZSTD_decompressContinue can decode a block with not_streaming literals placement: in a wrapped output ring the literals overwrite window "
+                  "bytes that later matches still reference (wrong bytes, no error)")
+    res.need(R, 2)
+
+
 def run(tier):
     res = Result("C02", tier)
     tus, info = extract(["compress", "decompress", "deprecated", "common"])
@@ -219,6 +237,7 @@ def run(tier):
     window_update(prog, res)
     overlap_trim(prog, res)
     zbuff_wrappers(prog, res)
+    core_decodes_in_streaming_mode(prog, res)
     single_pass_shortcut(prog, res)
     from .C10 import staging_buffer          # shared clause: the staging buffer holds every unit the decoder can ask for
     staging_buffer(prog, res)
